@@ -321,6 +321,7 @@ package multiparty
 //@   unwind 4
 //@   case len(params.ringQ.SubRings) == 1 ; set params.ringP = nil
 //@   requires len(others) <= 2
+//@   ensures result.threshold == threshold
 //@   ensures implies(len(others) == 1 && others[0] != own, val(result.lagrangeCoeffs[others[0]]) == others[0] * uf_inv(others[0] - own) && mexp(result.lagrangeCoeffs[others[0]]) == 1)
 
 // ---- finalisation of the collective evaluation key (property C14): every digit of every RNS component
